@@ -81,6 +81,8 @@ def lift(v):
     """Python scalar or Sym -> z3 expr."""
     if isinstance(v, Sym):
         return v.e
+    if isinstance(v, z3.ExprRef):
+        return v
     if isinstance(v, bool):
         return z3.BoolVal(v)
     if isinstance(v, int):
